@@ -439,6 +439,9 @@ func (s *seqRunner[V]) doModeOp(d digester, name string) bool {
 			default:
 				o = cl.Xor(x, y)
 			}
+			if o == nil {
+				return "RBad" // neither a panic nor a Set
+			}
 			s.add(kSet, o, s.pool[a].coll)
 			return "RNew"
 		})
@@ -455,6 +458,9 @@ func (s *seqRunner[V]) doModeOp(d digester, name string) bool {
 				x, y = y, x
 			}
 			o := col.List[V](s.notation).Concatenate(x, y)
+			if o == nil {
+				return "RBad"
+			}
 			s.add(kLst, o, 0)
 			return "RNew"
 		})
@@ -1386,6 +1392,9 @@ func (a *assocRunner[V]) doAssocModeOp(name string) (ok bool, handled bool) {
 				o = cl.Extract(nil, c.GetKeys())
 			default:
 				o = cl.Extract(c, nil)
+			}
+			if o == nil {
+				return "RBad"
 			}
 			s.add(kCat, o, 0)
 			return "RNew"
